@@ -137,7 +137,7 @@ macro_rules! with_cell {
                 }
                 Cell::Dur(s, us) => $f!(Some(Duration::new(*s, *us * 1000))),
                 Cell::Myc(v) => $f!(Some(mk_myc(v))),
-                Cell::Null(_) | Cell::Some(_) | Cell::Ref(_) => $f!(None::<u8>),
+                Cell::Null(_) | Cell::Some(_) | Cell::Ref(_) | Cell::OrAnyTemporal(_) => $f!(None::<u8>),
             },
             Cell::Myc(v) => $f!(mk_myc(v)),
             Cell::Ref(inner) => match &**inner {
@@ -158,6 +158,8 @@ macro_rules! with_cell {
                     $f!(&o)
                 }
             },
+            // expected-side marker, never part of a program's rows
+            Cell::OrAnyTemporal(_) => $f!(None::<u8>),
         }
     };
 }
@@ -368,6 +370,22 @@ impl<const D: bool> SimShim<D> {
                                         if res.is_ok() {
                                             // accepted: the row now has a cell too many; let
                                             // the shape check at end_row / the oracle see it
+                                        }
+                                    }
+                                }
+                                if let Some(Contra::OfferedMaybe { row: cr, col: cc, alt }) = &r.contra {
+                                    if *cr as usize == ri && *cc as usize == ci {
+                                        let res = write_cell(&mut rw, alt);
+                                        let accepted = res.is_ok();
+                                        // logged as a successful call either way: a refusal is
+                                        // as legitimate as an acceptance here
+                                        self.w.borrow_mut().log_api(
+                                            act_idx,
+                                            if accepted { "write_col (offer: accepted)" } else { "write_col (offer: refused)" },
+                                            &Ok(()),
+                                        );
+                                        if accepted {
+                                            continue;
                                         }
                                     }
                                 }
